@@ -149,6 +149,25 @@ theorem exists_orient_of_unordL : ∀ (b a : List (L × L)), (unordL a).Perm (un
       obtain ⟨c', hc1, hc2⟩ := exists_orient_of_unordL b' (a.erase p) h3
       exact ⟨p :: c', ha.trans (hc1.cons p), Or.inr (Prod.swap_swap p).symm, hc2⟩
 
+theorem pairLegs_perm_of_orientRel : ∀ (ps qs : List (L × L)), OrientRel ps qs →
+    (Expr.pairLegs ps).Perm (Expr.pairLegs qs)
+  | [], [], _ => List.Perm.refl _
+  | [], _ :: _, h => by simp [OrientRel] at h
+  | _ :: _, [], h => by simp [OrientRel] at h
+  | p :: ps, q :: qs, h => by
+    obtain ⟨hpq, hrest⟩ := h
+    have ih := pairLegs_perm_of_orientRel ps qs hrest
+    refine (pairLegs_cons_perm p ps).trans (List.Perm.trans ?_ (pairLegs_cons_perm q qs).symm)
+    rcases hpq with rfl | rfl
+    · exact (ih.cons _).cons _
+    · exact (List.Perm.swap _ _ _).trans ((ih.cons _).cons _)
+
+/-- "no leg is bound twice" does not depend on the orientation of the pairs -/
+theorem nodup_pairLegs_of_unordL (ps qs : List (L × L)) (h : (unordL ps).Perm (unordL qs))
+    (hnd : (Expr.pairLegs ps).Nodup) : (Expr.pairLegs qs).Nodup := by
+  obtain ⟨c, hc1, hc2⟩ := exists_orient_of_unordL qs ps h
+  exact (pairLegs_perm_of_orientRel c qs hc2).nodup_iff.1 ((pairLegs_perm hc1).nodup_iff.1 hnd)
+
 /-- **Records that agree as multisets of unordered pairs give the same sum**, provided both legs of every
 pair have the same dimension and no leg is bound twice. -/
 theorem sumPairs_unord (dim : L → Nat) (ps qs : List (L × L)) (h : (unordL ps).Perm (unordL qs))
@@ -157,5 +176,46 @@ theorem sumPairs_unord (dim : L → Nat) (ps qs : List (L × L)) (h : (unordL ps
   obtain ⟨c, hc1, hc2⟩ := exists_orient_of_unordL qs ps h
   rw [sumPairs_perm dim hc1 hnd]
   exact sumPairs_orient_rel dim c qs hc2 hdq f σ
+
+/-- **A contraction program with the (unoriented) record of `⟨B| O |K⟩` computes `⟨B| O |K⟩`.**  `K`, `O`, `B` are
+well-formed nestings (ket network, operator network, bra network, each contracted over its own bonds) with
+pairwise disjoint labels; `ppIn` joins free legs of `K` with free legs of `O` (operator inputs), `ppOut` joins
+the remaining free legs of `O` with free legs of `B` (operator outputs); `spec` is the specification graph:
+these pairs together with the bonds of the three layers.  Every strongly well-formed program `e` over the same
+leaf tensors whose binding record agrees with `spec` AS A MULTISET OF UNORDERED PAIRS evaluates — provided both
+legs of every pair have the same dimension (NumPy rejects anything else) — to `Σ_out (Σ_in K·O) · B`. -/
+theorem Expr.sandwich_of_record (dim : L → Nat) (e K O B : Expr L R) (he : e.SWF) (hK : K.WF) (hO : O.WF)
+    (hB : B.WF) (hKO : ∀ l ∈ K.labels, l ∉ O.labels) (hKB : ∀ l ∈ K.labels, l ∉ B.labels)
+    (hOB : ∀ l ∈ O.labels, l ∉ B.labels) (ppIn ppOut spec : List (L × L))
+    (hin : ∀ p ∈ ppIn, p.1 ∈ K.free ∧ p.2 ∈ O.free)
+    (hout : ∀ p ∈ ppOut, (p.1 ∈ O.free ∧ p.1 ∉ ppIn.map Prod.snd) ∧ p.2 ∈ B.free)
+    (hspec : (ppOut ++ ((ppIn ++ (K.binds ++ O.binds)) ++ B.binds)).Perm spec)
+    (hrec : (unordL e.binds).Perm (unordL spec))
+    (hdim : ∀ p ∈ spec, dim p.1 = dim p.2)
+    (hleaf : ∀ σ, e.leafProd σ = K.leafProd σ * O.leafProd σ * B.leafProd σ) (σ : Asg L) :
+    e.eval dim σ =
+      sumPairs dim ppOut (fun τ => sumPairs dim ppIn (fun ρ => K.eval dim ρ * O.eval dim ρ) τ * B.eval dim τ) σ := by
+  have h2 : (Expr.dot (Expr.dot K O ppIn) B ppOut).WF := by
+    refine ⟨⟨hK, hO, hKO, hin⟩, hB, ?_, ?_⟩
+    · intro l hl
+      simp only [Expr.labels, List.mem_append] at hl
+      rcases hl with hl | hl
+      · exact hKB l hl
+      · exact hOB l hl
+    · intro p hp
+      refine ⟨?_, (hout p hp).2⟩
+      simp only [Expr.free, List.mem_append, List.mem_filter]
+      refine Or.inr ⟨(hout p hp).1.1, ?_⟩
+      simpa using (hout p hp).1.2
+  have hnd := Expr.binds_nodup e he
+  have e2 : (Expr.dot (Expr.dot K O ppIn) B ppOut).eval dim σ =
+      sumPairs dim ppOut (fun τ => sumPairs dim ppIn (fun ρ => K.eval dim ρ * O.eval dim ρ) τ * B.eval dim τ) σ := rfl
+  rw [← e2, Expr.eval_eq_full dim e he.wf, Expr.eval_eq_full dim _ h2]
+  simp only [Expr.full]
+  rw [sumPairs_unord dim e.binds spec hrec hdim hnd,
+    sumPairs_perm dim hspec.symm (nodup_pairLegs_of_unordL _ _ hrec hnd)]
+  apply sumPairs_congr
+  intro τ
+  rw [hleaf, Expr.leafProd_dot, Expr.leafProd_dot]
 
 end Ptn.Ein
